@@ -304,7 +304,7 @@ def run(tier, seed):
     ops = alphabet(tier)
     depth = 2 if tier == "quick" else 3
     items = []
-    for sp in base_models():
+    for sp in base_models() + F.nested_running_specs()[:: (2 if tier == "quick" else 1)]:
         # split the first operation across work items for parallelism: handled by BFS inside; one item per model
         for op in ops:
             items.append((sp, depth, ops, (op,)))
